@@ -79,7 +79,8 @@ reg("C01", exc_ops=WRITE_OPS, nontrivial=nt_pages,
 reg("C02", exc_ops=ALL_OPS, nontrivial=nt_pages, hook="lookup",
     profile={"long": 0.6, "raw": 0.5, "prefixy": 0.5}, title="Findability / TST invariants")
 reg("C03", exc_ops={"AddLinks", "IndexBatchCrawl"}, nontrivial=nt_links, hook="links",
-    weights={"AddLinks": 28, "IndexBatchCrawl": 20, "AddPage": 10}, title="Link multigraph")
+    weights={"AddLinks": 24, "IndexBatchCrawl": 30, "AddPage": 10, "Clear": 0},
+    profile={"nlrus": 9, "raw": 0.1, "long": 0.2}, n=(160, 2000), title="Link multigraph")
 reg("C04", exc_ops=WE_OPS, nontrivial=nt_we, hook="resolve",
     weights={"CreateWe": 14, "DeleteWe": 8, "AddPrefix": 10, "RemovePrefix": 8, "MovePrefix": 8,
              "AddPage": 14},
